@@ -406,6 +406,9 @@ func createdNodes(rel string) []string {
 					ast.Inspect(fd.Body, func(m ast.Node) bool {
 						if call, ok := m.(*ast.CallExpr); ok && call.Pos() > p.End() {
 							fn := exprStr(call.Fun)
+							if fn == v+".SetLocation" && len(call.Args) == 1 && how == "" {
+								how = "setloc:" + exprStr(call.Args[0])
+							}
 							if fn == "Patch" || fn == "ast.Patch" || fn == "patch" || fn == "patchWithType" {
 								for _, a := range call.Args {
 									if exprStr(a) == v {
